@@ -60,9 +60,12 @@ class Ctx:
         self.assumptions = []
         self.notes = []
         self._distinct = set()
-        self.case_dir = os.path.join(BUILD, 'cases', prop)
+        # one directory of generated Coq case files per run (several checks of one property may run at the same time)
+        self.case_dir = os.path.join(BUILD, 'cases', '%s_%s_%d' % (prop, tier, os.getpid()))
         shutil.rmtree(self.case_dir, ignore_errors=True)
         os.makedirs(self.case_dir, exist_ok=True)
+        import atexit
+        atexit.register(shutil.rmtree, self.case_dir, True)
         os.makedirs(REPLAYS, exist_ok=True)
         self.findings = load_findings(prop)
         self.quick = (tier == 'quick')
